@@ -64,6 +64,7 @@ pub fn profile(name: &str) -> Profile {
         "reclaim" => Profile { name: "reclaim", reclaim_pct: 14, restart_pct: 3, ops: (50, 140), topics: 3, peek_pct: 25, offset_pct: 10, multi_unit_pct: 1, ..base },
         "crashw" => Profile { name: "crashw", crash_w_pct: 18, restart_pct: 2, multi_unit_pct: 1, alo_pct: 0, ops: (10, 45), ..base },
         "crashr" => Profile { name: "crashr", crash_r_pct: 22, restart_pct: 2, multi_unit_pct: 1, alo_pct: 40, peek_pct: 10, ops: (12, 50), ..base },
+        "crashbig" => Profile { name: "crashbig", crash_w_pct: 100, alo_pct: 0, mmap_pct: 25, ..base },
         "marks" => Profile { name: "marks", marks_pct: 45, restart_pct: 10, ops: (6, 30), ..base },
         _ => panic!("unknown profile {}", name),
     }
@@ -138,7 +139,37 @@ fn sim_append(g: &Geo, st: &mut SimTopic, len: u64) {
     st.log.push(len);
 }
 
+/// large batches (up to the entry cap) interrupted at the submission / at an entry write
+fn gen_crashbig(r: &mut Rng, g: &Geo, backend: &str) -> Vec<String> {
+    let mut lines = vec![format!("cfg {} strict {}", if g.small { "small" } else { "real" }, backend), "clock 1700000000000".into(), "open".into()];
+    let mut seedctr = 0u64;
+    let mut clock = 1_700_000_000_000u64;
+    for round in 0..2 {
+        for _ in 0..(1 + r.below(3)) {
+            seedctr += 1;
+            lines.push(format!("append t0 {}:{}", 1 + r.below(300), 1 + seedctr % 120));
+        }
+        let n = match r.below(4) { 0 => g.cap, 1 => g.cap - r.below(g.cap / 4 + 1), 2 => g.cap / 2 + 1 + r.below(g.cap / 4 + 1), _ => 2 + r.below(g.cap.min(12)) };
+        let items: Vec<String> = (0..n).map(|_| { seedctr += 1; format!("{}:{}", 1 + r.below(24), 1 + seedctr % 120) }).collect();
+        if backend == "fd" && r.chance(60) { lines.push("crash 7 0".into()); }
+        else { lines.push(format!("crash {} {}", if r.chance(50) { 0 } else { 8 }, r.below(n))); }
+        lines.push(format!("batch t0 {}", items.join(",")));
+        clock += 5000;
+        lines.push(format!("clock {}", clock));
+        lines.push("open".into());
+        lines.push("count t0".into());
+        if round == 1 {
+            for _ in 0..(2 * g.cap / g.cap.min(2000) + 3) { lines.push(format!("bread t0 {} 1 -", u64::MAX)); }
+            lines.push("count t0".into());
+        }
+    }
+    lines
+}
+
 pub fn gen_program(r: &mut Rng, g: &Geo, p: &Profile, backend: &str, seed_tag: u64) -> Vec<String> {
+    if p.name == "crashbig" {
+        return gen_crashbig(r, g, backend);
+    }
     let mode = if r.chance(p.alo_pct) { format!("alo:{}", 1 + r.below(8)) } else { "strict".to_string() };
     let mut lines = vec![format!("cfg {} {} {}", if g.small { "small" } else { "real" }, mode, backend)];
     let mut clock = 1_700_000_000_000 + (seed_tag % 7) * 1000;
